@@ -35,6 +35,7 @@ type HarnessCfg struct {
 	Thorough   *TierSpec `json:"thorough,omitempty"`
 	NoReplay   bool      `json:"no_replay,omitempty"`
 	Race       bool      `json:"race,omitempty"`
+	Repeat     int       `json:"native_repeat,omitempty"` // native replay repeats each vector (Go map order differs per run)
 }
 
 type PropertyCfg struct {
@@ -316,7 +317,7 @@ func runCheck(prop, tier string, only string) int {
 			fresh = append(fresh, a)
 		}
 		if len(fresh) > 0 {
-			rf := &ReplayFile{Property: prop, Harness: h.Pkg + "." + h.Func, Pkg: h.Pkg, Func: h.Func, Params: ts.Params, Race: h.Race}
+			rf := &ReplayFile{Property: prop, Harness: h.Pkg + "." + h.Func, Pkg: h.Pkg, Func: h.Func, Params: ts.Params, Race: h.Race, Repeat: h.Repeat}
 			for _, a := range fresh {
 				rf.Vectors = append(rf.Vectors, a.First.Vector)
 				rf.Expect = append(rf.Expect, a.First.Kind+" "+a.First.Label)
@@ -341,7 +342,7 @@ func runCheck(prop, tier string, only string) int {
 				desc := fmt.Sprintf("%s %q at %s (%d path(s)); inputs %s", v.Kind, v.Label, relPos(v.Pos), a.Count, vecString(v.Vector))
 				if h.NoReplay || reproduced(res[i]) {
 					v.Replayed = res[i]
-					one := &ReplayFile{Property: prop, Harness: rf.Harness, Pkg: h.Pkg, Func: h.Func, Params: ts.Params, Race: h.Race,
+					one := &ReplayFile{Property: prop, Harness: rf.Harness, Pkg: h.Pkg, Func: h.Func, Params: ts.Params, Race: h.Race, Repeat: h.Repeat,
 						Vectors: [][]NdVal{v.Vector}, Expect: []string{v.Kind + " " + v.Label},
 						Note: "engine: " + desc + "; native outcome: " + res[i] + "; decisions " + fmt.Sprint(v.Prefix)}
 					path := writeReplay(prop, h.Func, one)
@@ -359,7 +360,7 @@ func runCheck(prop, tier string, only string) int {
 		}
 		// translator validation: witness inputs of clean paths must run clean natively
 		if len(ex.samples) > 0 && !h.NoReplay && os.Getenv("VERIF_NO_SAMPLE_REPLAY") == "" {
-			rf := &ReplayFile{Harness: h.Pkg + "." + h.Func, Pkg: h.Pkg, Func: h.Func, Params: ts.Params, Race: h.Race}
+			rf := &ReplayFile{Harness: h.Pkg + "." + h.Func, Pkg: h.Pkg, Func: h.Func, Params: ts.Params, Race: h.Race, Repeat: h.Repeat}
 			n := len(ex.samples)
 			if tier == "quick" && n > 3 {
 				n = 3
